@@ -24,8 +24,17 @@ def run(rep):
     calls = []
     def m_super_get_code(ex, s, f, args, kw, where):
         cur = s.hget(('global', be.__name__, 'cache_from_source'))
-        ex.raised.append((s.ev('super_get_code', cur, 'raise'), VObj(M.fresh('compile_exc'))))
-        return [(s.ev('super_get_code', cur, 'return'), VObj(M.fresh('codeobj')))]
+        # what the AST transformation will see while this compile runs: the loader's _module_conf and the registry entry written so far
+        seen = (z3.Select(ex.field(s, '_module_conf'), SELF), tuple(e for e in s.effects if e[0] == 'setitem'), tuple(s.pc))
+        ex.raised.append((s.ev('super_get_code', cur, 'raise', seen), VObj(M.fresh('compile_exc'))))
+        return [(s.ev('super_get_code', cur, 'return', seen), VObj(M.fresh('codeobj')))]
+    STALE = z3.Const('registry_entry_of_an_earlier_import', M.Obj)
+    def m_setdefault(ex, s, f, args, kw, where):
+        # dict.setdefault: the stored value if the key is present (an earlier import of the same module name under another configuration), else the default
+        outs = []
+        for s2, present in ex.fork(s, z3.Bool('registry_has_entry')):
+            outs.append((s2, VObj(STALE)) if present else (s2.eff('setitem', ex.obj(f.self_), (ex.obj(args[0]), ex.obj(args[1]))), args[1]))
+        return outs
     def m_match(ex, s, f, args, kw, where): return [(s, VObj(M.fresh('match')))]
     def m_conf(ex, s, f, args, kw, where):
         outs = []
@@ -38,7 +47,7 @@ def run(rep):
         return lambda ex, s, f, args, kw, where: [(s, VObj(z3.Function(f'meth_{name}', M.Obj, M.Obj)(ex.obj(f.self_))))]
     from beartype.claw._package import clawpkgtrie
     cm = {'super.get_code': m_super_get_code, '.match': m_match, clawpkgtrie.get_package_conf_or_none: m_conf, functools.partial: m_partial, repr: m_repr,
-          '.encode': m_method('encode'), '.hexdigest': m_method('hexdigest')}
+          '.encode': m_method('encode'), '.hexdigest': m_method('hexdigest'), '.setdefault': m_setdefault}
     scope = dict(mod.__dict__); scope['claw_state'] = VObj(z3.Const('claw_state', M.Obj))
     # the interpreter's flags / environment are inputs, not constants of the checker's own process: -B, -O, ... are quantified over
     import sys as _sys, os as _os
@@ -46,7 +55,7 @@ def run(rep):
         if v_ is _sys.flags: scope[k_] = VObj(z3.Const('sys_flags', M.Obj))
         elif v_ is _sys: scope[k_] = VObj(z3.Const('sys_module', M.Obj))
         elif v_ is _os.environ: scope[k_] = VObj(z3.Const('os_environ', M.Obj))
-    ex = Exec(uni, scope, call_model=cm, name='get_code'); ex.fields_mode = True; ex.method_names = {'match', 'get_code', 'encode', 'hexdigest', 'get'}; ex.fstr_eval_calls = True
+    ex = Exec(uni, scope, call_model=cm, name='get_code'); ex.fields_mode = True; ex.method_names = {'match', 'get_code', 'encode', 'hexdigest', 'get', 'setdefault'}; ex.fstr_eval_calls = True
     pre = (M.inst(CONF, uni.const(BeartypeConf)), CONF != uni.const(None))
     outs = ex.run_function(node, St((), pre), (VObj(SELF), VObj(FULL)), {}, fobj)
     outs = [('return', s, v) for s, v in outs] + [('raise', s, v) for s, v in ex.raised]
@@ -79,6 +88,15 @@ def run(rep):
             ok = during is not None and not (isinstance(during, VPy) and during.o is ORIG)
             rep.add(f'C16.get_code.post.hooked_compiles_patched.{tag}', 'proved' if ok else 'refuted', backend='structural', where='a hooked module is compiled while the beartype-specific cache function is installed (marked cache file)')
             if ok: installed.append((during, s))
+            # the configuration the transformer reads during this compile IS the configuration the module is hooked under (and the marker is derived from)
+            mc, setitems, pc_at = sg[0][3]
+            r = prover.prove(list(pc_at) + [STALE != CONF], mc == CONF)
+            rep.add(f'C16.get_code.post.transforms_under_the_hooking_conf.loader.{tag}', r.status, time=r.time, backend=r.backend, reason=r.reason,
+                    where="during the compile self._module_conf is the configuration the module is hooked under - the one the cache-file marker is derived from (a stale one would be written under the other's marker)")
+            reg = [e for e in setitems if 'module_name_to_beartype_conf' in str(e[1])]
+            ok_reg = bool(reg) and reg[-1][2][0].eq(FULL) and reg[-1][2][1].eq(CONF)
+            rep.add(f'C16.get_code.post.transforms_under_the_hooking_conf.registry.{tag}', 'proved' if ok_reg else 'refuted', backend='structural',
+                    where='before the compile the registry entry claw_state.module_name_to_beartype_conf[fullname] is (re)written with that same configuration')
     if nh == 0: rep.error('C16: no hooked path through get_code was explored')
     # ---- the installed function: what `optimization` does it hand to the original cache_from_source?
     deps_all = []
@@ -172,7 +190,8 @@ def replay_stale():
     finally:
         shutil.rmtree(td, ignore_errors=True)
 
-RUN_KINDS = [('unhooked', ''), ('hooked_pep526_on', ''), ('hooked_pep526_off', ''), ('unhooked', '-B'), ('hooked_pep526_on', '-B'), ('hooked_pep526_off', 'env')]
+RUN_KINDS = [('unhooked', ''), ('hooked_pep526_on', ''), ('hooked_pep526_off', ''), ('unhooked', '-B'), ('hooked_pep526_on', '-B'), ('hooked_pep526_off', 'env'),
+             ('rehook_off_then_on', '')]      # ONE process imports the module under one configuration, drops it from sys.modules and imports it again under another
 
 def _history(args):
     """one history of interpreter runs over ONE module and ONE __pycache__; each run's observation is compared with the same run on an empty cache"""
@@ -184,7 +203,8 @@ def _history(args):
         open(os.path.join(td, 'pkgx', 'mod.py'), 'w').write("def twice(s: int) -> int:\n    return s + s\nx: int = 'not an int'\n")
         runpy = os.path.join(td, 'run.py')
         open(runpy, 'w').write(f"import sys\nsys.path.insert(0, {repo!r}); sys.path.insert(0, {td!r})\nkind = sys.argv[1]\n"
-            "if kind != 'unhooked':\n    from beartype import BeartypeConf\n    from beartype.claw import beartype_package\n    beartype_package('pkgx', conf=BeartypeConf(claw_is_pep526=(kind == 'hooked_pep526_on')))\n"
+            "if kind == 'rehook_off_then_on':\n    from beartype import BeartypeConf\n    from beartype.claw import beartyping\n    with beartyping(conf=BeartypeConf(claw_is_pep526=False)):\n        try: import pkgx.mod\n        except Exception: pass\n    for n in [n for n in sys.modules if n.startswith('pkgx')]: del sys.modules[n]\n    from beartype.claw import beartype_package\n    beartype_package('pkgx', conf=BeartypeConf(claw_is_pep526=True))\n"
+            "elif kind != 'unhooked':\n    from beartype import BeartypeConf\n    from beartype.claw import beartype_package\n    beartype_package('pkgx', conf=BeartypeConf(claw_is_pep526=(kind == 'hooked_pep526_on')))\n"
             "out = []\ntry:\n    import pkgx.mod as m\n    out.append('imported')\n    try: out.append(repr(m.twice('ab')))\n    except Exception as e: out.append(type(e).__name__)\nexcept Exception as e:\n    out.append('import-raises ' + type(e).__name__)\nprint(' '.join(out))\n")
         def go(kind, flag):
             env = {k: v for k, v in os.environ.items() if k != 'PYTHONDONTWRITEBYTECODE'}
